@@ -45,6 +45,8 @@ return `Option` and their `none` cases are characterised exactly below.
   short / time32 wire formats: within one unit of the format  short_roundtrip, short_decode_encode, short_none_iff,
                                                               time32_roundtrip, time32_saturates,
                                                               time32_decode_encode, time32_none_iff
+  (as_seconds_nanos = floor decomposition; from_exponent =
+     2^e s, clamped, inverted by log2)                        as_seconds_nanos_floor, from_exponent_log2
   (PollInterval stays within limits, as_duration clamps)      poll_inc_dec, poll_as_duration
   (… as_duration monotone, wire byte round trip, inc/dec
      inverse inside the limits)                               poll_as_duration_mono, poll_byte_roundtrip,
@@ -458,6 +460,59 @@ theorem poll_inc_dec_inverse (p lmin lmax : Int) (hp : inI8 p) (h1 : lmin < p) (
 
 example : pollFromByte (pollAsByte (-3)) = -3 ∧ pollAsByte (-3) = 253 ∧ pollAsDuration 3 ≤ pollAsDuration 4 := by decide
 
+/-! ### misc NtpDuration: as_seconds_nanos, from_exponent, log2 -/
+
+/-- `as_seconds_nanos` is the floor decomposition of the duration into whole seconds and nanoseconds:
+    `s·10⁹ + n ≤ d·10⁹/2³² < s·10⁹ + n + 1` with `0 ≤ n < 10⁹`, whenever the seconds fit `i32`
+    (they always do for an `i64` duration) -/
+theorem as_seconds_nanos_floor (d : Int) (h : inI64 d) :
+    let (s, n) := asSecondsNanos d
+    0 ≤ n ∧ n < 1000000000 ∧ I32_MIN ≤ s ∧ s ≤ I32_MAX ∧
+      (s * 1000000000 + n) * 4294967296 ≤ d * 1000000000 ∧
+      d * 1000000000 < (s * 1000000000 + n + 1) * 4294967296 := by
+  unfold inI64 I64_MIN I64_MAX at h
+  unfold asSecondsNanos wrapS32 wrapU32 I32_MIN I32_MAX
+  have hm : 0 ≤ d % 4294967296 ∧ d % 4294967296 < 4294967296 := by omega
+  have hf : d % 4294967296 * 1000000000 / 4294967296 < 1000000000 :=
+    Int.ediv_lt_of_lt_mul (by decide) (by omega)
+  have hf0 : 0 ≤ d % 4294967296 * 1000000000 / 4294967296 := Int.ediv_nonneg (by omega) (by decide)
+  rw [Int.emod_eq_of_lt hf0 (by omega : d % 4294967296 * 1000000000 / 4294967296 < 4294967296)]
+  have hq := Int.mul_ediv_add_emod (d % 4294967296 * 1000000000) 4294967296
+  have hr : 0 ≤ d % 4294967296 * 1000000000 % 4294967296 ∧
+      d % 4294967296 * 1000000000 % 4294967296 < 4294967296 := by omega
+  generalize d % 4294967296 * 1000000000 / 4294967296 = n at *
+  generalize d % 4294967296 * 1000000000 % 4294967296 = r at *
+  have hd := Int.mul_ediv_add_emod d 4294967296
+  have hb : -2147483648 ≤ d / 4294967296 ∧ d / 4294967296 ≤ 2147483647 := by omega
+  generalize d % 4294967296 = m at *
+  generalize d / 4294967296 = b at *
+  have hs : (if b % 4294967296 ≥ 2147483648 then b % 4294967296 - 4294967296 else b % 4294967296) = b := by
+    split <;> omega
+  simp only
+  rw [hs]
+  refine ⟨by omega, by omega, by omega, by omega, ?_, ?_⟩ <;> subst hd <;> omega
+
+example : asSecondsNanos (-1) = (-1, 999999999) ∧ asSecondsNanos 6442450944 = (1, 500000000) := by decide
+
+theorem from_exponent_table : ∀ n : Fin 63,
+    log2 (fromExponent ((n.val : Int) - 32)) = (n.val : Int) - 32 ∧
+      fromExponent ((n.val : Int) - 32) = 2 ^ n.val := by decide +kernel
+
+/-- `from_exponent e` is 2^e seconds (2^(e+32) units) for −32 ≤ e ≤ 30, `log2` inverts it there, and outside
+    that range it clamps to 0 / `i64::MAX` -/
+theorem from_exponent_log2 (e : Int) :
+    (-32 ≤ e ∧ e ≤ 30 → fromExponent e = 2 ^ (e + 32).toNat ∧ log2 (fromExponent e) = e) ∧
+      (e < -32 → fromExponent e = 0) ∧ (30 < e → fromExponent e = I64_MAX) := by
+  refine ⟨?_, ?_, ?_⟩
+  · intro h
+    have hn : (e + 32).toNat < 63 := by omega
+    have := from_exponent_table ⟨(e + 32).toNat, hn⟩
+    have he : (((e + 32).toNat : Nat) : Int) - 32 = e := by omega
+    simp only [he] at this
+    exact ⟨this.2, this.1⟩
+  · intro h; unfold fromExponent; (repeat' split) <;> omega
+  · intro h; unfold fromExponent; (repeat' split) <;> omega
+
 /-! ### statime-base: the same laws on 128 bits -/
 
 def Saturates128 (exact result : Int) : Prop :=
@@ -646,3 +701,5 @@ end NtpVerif.C32
 #print axioms NtpVerif.C32.poll_as_duration_mono
 #print axioms NtpVerif.C32.poll_byte_roundtrip
 #print axioms NtpVerif.C32.poll_inc_dec_inverse
+#print axioms NtpVerif.C32.as_seconds_nanos_floor
+#print axioms NtpVerif.C32.from_exponent_log2
